@@ -1688,6 +1688,10 @@ func getTracking(td tables.TrackData, ptem float32, trackValue float32) float32 
 	if len(td.SizeTable) == 0 {
 		return 0.
 	}
+	// a track entry with a null offset has no per-size values
+	if len(trackTableEntry.PerSizeTracking) < len(td.SizeTable) {
+		return 0.
+	}
 	if len(td.SizeTable) == 1 {
 		return float32(trackTableEntry.PerSizeTracking[0])
 	}
